@@ -345,14 +345,14 @@ struct Case {
     stream: String,
     nest: Option<(String, usize)>,
 }
-fn run_batches(cases: &[Case], dir: &std::path::Path) -> Vec<Outcome> {
+fn run_batches(cases: &[Case], dir: &std::path::Path, cap: Duration, tag: &str) -> Vec<Outcome> {
     let exe = std::env::current_exe().unwrap();
     let mut out: Vec<Option<Outcome>> = vec![None; cases.len()];
     let mut start = 0usize;
     let mut round = 0;
     while start < cases.len() {
         round += 1;
-        let batch = dir.join(format!("batch_{}.jsonl", round));
+        let batch = dir.join(format!("batch_{}{}.jsonl", tag, round));
         {
             let mut f = std::io::BufWriter::new(std::fs::File::create(&batch).unwrap());
             for (i, c) in cases.iter().enumerate().skip(start) {
@@ -374,7 +374,7 @@ fn run_batches(cases: &[Case], dir: &std::path::Path) -> Vec<Outcome> {
         let mut died: Option<String> = None;
         loop {
             let wait = match current {
-                Some((_, t)) => WALL_CAP.saturating_sub(t.elapsed()),
+                Some((_, t)) => cap.saturating_sub(t.elapsed()),
                 None => Duration::from_secs(60), // database set-up at child start
             };
             match rx.recv_timeout(wait) {
@@ -471,6 +471,8 @@ fn main() {
     push(&mut cases, nest("paren", 2000), json!({}), 0, "corpus", Some(("paren".into(), 2000)));
     push(&mut cases, "WITH 'é' AS x RETURN x".into(), json!({}), 0, "corpus", None);
     push(&mut cases, "MATCH (a)<-[r]-(b) RETURN a, r, b".into(), json!({}), 2, "corpus", None);
+    // fixed d9e8e2a: execute_mixed drained the plan iterator after the timeout error (ran > 100 s with soft_timeout_ms = 1000)
+    push(&mut cases, "UNWIND range(1, 100000) AS x UNWIND range(1, 100000) AS y RETURN count(*)".into(), json!({}), 1, "corpus", None);
     // deep nesting of every recursive production / long chains
     let deep: &[usize] = if a.tier == "thorough" { &[1, 2, 3, 10, 50, 100, 200, 500, 1000, 5000, 20000, 100000] } else { &[1, 3, 30, 100, 400, 3000, 50000] };
     for k in NEST_KINDS.iter().chain(OTHER_KINDS.iter()) {
@@ -489,7 +491,17 @@ fn main() {
         let p = gen_params(&mut r);
         push(&mut cases, q, p, g, stream, nestinfo);
     }
-    let outcomes = run_batches(&cases, &a.out);
+    let mut outcomes = run_batches(&cases, &a.out, WALL_CAP, "");
+    // wall time on a shared machine is noisy: a timeout counts only if the query, run alone in a fresh
+    // child with three times the cap, stalls again
+    for i in 0..cases.len() {
+        if outcomes[i].kind == "timeout" {
+            let one = [Case { id: 0, query: cases[i].query.clone(), params: cases[i].params.clone(), graph: cases[i].graph, stream: cases[i].stream.clone(), nest: None }];
+            let again = run_batches(&one, &a.out, WALL_CAP * 3, "retry");
+            *hist.entry(format!("timeout-retried:{}", again[0].kind)).or_insert(0) += 1;
+            outcomes[i] = again[0].clone();
+        }
+    }
     let mut nontrivial = std::collections::BTreeSet::<String>::new();
     let mut fails = 0u64;
     let mut slowest = 0u128;
